@@ -390,7 +390,8 @@ pub fn accepts(prop: &str, v: &Viol, ops: &[OpRec]) -> bool {
     if p == "panic" {
         return true;
     }
-    if prop == "ALL" {
+    if prop == "ALL" || std::env::var("VERIF_ACCEPT_ALL").is_ok() {
+        // silence hunting: every predicate under this profile
         return true;
     }
     let in_list = |l: &[&str]| l.contains(&p);
